@@ -4,6 +4,8 @@ PROP = {
     "modules": ["YorkieModel.Props.C01"],
     "engines": [
         {"name": "crdt", "quick": {"n": 2400, "workers": 8}, "thorough": {"n": 150000, "workers": 14}},
+        {"name": "text", "quick": {"n": 1600, "workers": 8}, "thorough": {"n": 100000, "workers": 14}},
+        {"name": "textif", "quick": {"n": 1600, "workers": 8}, "thorough": {"n": 100000, "workers": 14}},
     ],
     "trusted_base": BASE_TB + [
         "Model/Crdt.lean is the OBSERVABLE document model: it keeps what Marshal() and the operation executor read and forgets removedAt ticket values, the tombstone flag of LWW losers, and the GC registries (header of the file); those are tied separately by the faithful model of C02/C03",
